@@ -537,3 +537,53 @@ func verifLemma_C24_find_values(a, b, c, d int) {
 	v, ok := u.FindValue(5)
 	verifrt.Assert(ok && v.(int) == d, "find-value-agrees")
 }
+
+func (w vListWorld) FindRelationsByFeature(id b6.FeatureID) b6.RelationFeatures {
+	var found []b6.RelationFeature
+	for _, f := range w.fs {
+		if r, ok := f.(*RelationFeature); ok {
+			for _, m := range r.Members {
+				if m.ID == id {
+					found = append(found, WrapRelationFeature(r, w))
+					break
+				}
+			}
+		}
+	}
+	return NewRelationFeatureIterator(found)
+}
+
+// ---- C16: relations containing a feature, in a layered world (bounded shape) ------------------
+// Base layer: relation 7 with member point 1, relation 8 with member point 1. Upper layer:
+// a new version of relation 7 whose only member is point 2. The real
+// OverlayWorld.FindRelationsByFeature over two list worlds (test doubles): asking for the
+// relations that contain point 1 must not return relation 7 - the upper layer replaced it
+// with a version that does not contain the point - but still returns relation 8; asking for
+// point 2 returns the upper version of relation 7.
+func verifLemma_C16_shadowed_relation_is_not_reported() {
+	p1, p2 := FromOSMNodeID(1), FromOSMNodeID(2)
+	base7 := &RelationFeature{RelationID: FromOSMRelationID(7), Members: []b6.RelationMember{{ID: p1}}}
+	base8 := &RelationFeature{RelationID: FromOSMRelationID(8), Members: []b6.RelationMember{{ID: p1}}}
+	upper7 := &RelationFeature{RelationID: FromOSMRelationID(7), Members: []b6.RelationMember{{ID: p2}}}
+	w := NewOverlayWorld(vListWorld{fs: []b6.Feature{upper7}}, vListWorld{fs: []b6.Feature{base7, base8}})
+	n, seen7, seen8 := 0, false, false
+	rs := w.FindRelationsByFeature(p1)
+	for rs.Next() {
+		n++
+		if rs.Feature().RelationID() == FromOSMRelationID(7) {
+			seen7 = true
+		}
+		if rs.Feature().RelationID() == FromOSMRelationID(8) {
+			seen8 = true
+		}
+	}
+	verifrt.Assert(!seen7, "relation-replaced-in-the-upper-layer-is-not-reported-with-its-base-members")
+	verifrt.Assert(seen8 && n == 1, "unshadowed-base-relation-is-still-reported")
+	m := 0
+	rs = w.FindRelationsByFeature(p2)
+	for rs.Next() {
+		m++
+		verifrt.Assert(rs.Feature().RelationID() == FromOSMRelationID(7) && rs.Feature().Len() == 1 && rs.Feature().Member(0).ID == p2, "upper-version-is-reported-through-its-own-member")
+	}
+	verifrt.Assert(m == 1, "exactly-the-upper-version")
+}
